@@ -421,7 +421,15 @@ fn check_beam(
         // 4. finite whenever the sequence is possible
         for (i, (ls, sc)) in list.iter().enumerate() {
             if *sc == f64::NEG_INFINITY && ex[i] > f64::NEG_INFINITY {
-                return Some(("neg-inf-score-for-possible-sequence", format!("hypothesis {ls:?} has score -inf but its exact log probability is {}", ex[i])));
+                // With nothing pruned a possible sequence always carries its full
+                // mass, so -inf there is a scoring defect; below that width it
+                // means a zero-probability state was kept in the beam.
+                let kind = if unpruned.is_some() {
+                    "neg-inf-score-for-possible-sequence:unpruned"
+                } else {
+                    "neg-inf-score-for-possible-sequence:pruned-or-unknown-regime"
+                };
+                return Some((kind, format!("hypothesis {ls:?} has score -inf but its exact log probability is {}", ex[i])));
             }
         }
         // 5. pairwise distinct
